@@ -4,14 +4,18 @@
    Statements only; every proof is `exact` of a lemma of Proofs/Inter*.v.
    The documented language (syntax trees, [render], [terms_of], [vars_of]) is
    Model/GrammarI.v; the parser and evaluators are Model/Parse.v and Model/Poly.v. *)
-From Coq Require Import ZArith NArith List Bool Reals Sorting.Sorted.
+From Coq Require Import ZArith NArith List Bool Reals Floats Sorting.Sorted.
 From SV Require Import Base.Num Base.Outcome Base.Str Model.Poly Model.Parse Model.GrammarI
   Proofs.InterTerm Proofs.InterParse Proofs.InterAgree.
 Import ListNotations.
 Import Coq.Strings.String.StringSyntax.
 
 (* every rendering of a well-formed source tree, with blanks anywhere, is accepted; the
-   result is exactly the conventional reading (every Num instance: also the float one) *)
+   result is exactly the conventional reading (every Num instance: also the float one).
+   [wf_src] has a syntactic part and an arithmetic part "in the arithmetic at hand":
+   denominators non-zero and finite, every numeral, quotient and summed exponent finite
+   (vacuous in R: Proofs.InterTerm.finite_R; in binary64 it excludes numerals beyond the
+   range of f64 — c02_overflow_rejected below). *)
 Theorem c02_accept_canonical : forall (T : Type) (NT : Num T) (U : UClass) (src : msrc) (lead : bool) (s : str),
   uclass_num_ok U -> @wf_src T NT src = true -> strip_ws s = render lead src ->
   parse_inter U s = Ok {| i_terms := @terms_of T NT src; i_vars := vars_of src |}.
@@ -134,8 +138,9 @@ Example c02_nonvacuous :
   uclass_num_ok uclass_tab /\ vars_of src = [lit "x"; lit "y"].
 Proof.
   cbv zeta. split; [|split; [|split]].
-  - unfold wf_src, wf_term, wf_coef, wf_var, wf_expo, wf_frac. cbn -[nneb dec_val].
-    unfold nneb, dec_val. cbn. unfold Reqb. destruct (Req_EM_T _ _) as [E|_]; [|reflexivity].
+  - unfold wf_src. cbn [forallb]. unfold wf_term. rewrite !forallb_finite_R.
+    unfold wf_coef, wf_var, wf_expo, wf_frac. cbn -[nneb dec_val finite signed ndiv].
+    rewrite !finite_R. unfold nneb, dec_val. cbn. unfold Reqb. destruct (Req_EM_T _ _) as [E|_]; [|reflexivity].
     exfalso. rewrite Rmult_1_r in E. apply eq_IZR in E. discriminate.
   - reflexivity.
   - exact uclass_tab_num_ok.
@@ -151,3 +156,15 @@ Example c02_agree_nonvacuous :
 Proof.
   cbv zeta. split; [reflexivity|]. split; [reflexivity|]. split; [exact uclass_tab_alpha_ok|reflexivity].
 Qed.
+
+(* binary64: numerals, quotients and summed exponents beyond the range of f64 are errors, not
+   infinite coefficients (fix 59b028d): a 400-digit coefficient, 9..9(308)/.1, 1/9..9(309 digits),
+   x^9..9(308) x^9..9(308); the largest cases that still fit are accepted *)
+Example c02_overflow_rejected :
+  @parse_inter float FNum uclass_tab (repeat 57%N 400 ++ lit "x") = Err EInvalidCoefficient /\
+  @parse_inter float FNum uclass_tab (repeat 57%N 308 ++ lit "/.1x") = Err EInvalidFraction /\
+  @parse_inter float FNum uclass_tab (lit "1/" ++ repeat 57%N 309 ++ lit "x") = Err EInvalidFraction /\
+  @parse_inter float FNum uclass_tab (lit "x^" ++ repeat 57%N 308 ++ lit "x^" ++ repeat 57%N 308) = Err EInvalidExponent /\
+  @parse_inter float FNum uclass_tab (lit "x^" ++ repeat 57%N 400) = Err EInvalidExponent /\
+  is_ok (@parse_inter float FNum uclass_tab (repeat 57%N 308 ++ lit "x^" ++ repeat 57%N 308)) = true.
+Proof. vm_compute. repeat split; reflexivity. Qed.
